@@ -31,6 +31,8 @@ def load_targets():
         out.append(dict(m, patch=f"{VERIF}/mutants/{m['patch']}", kind="mutant"))
     for meta in sorted(glob.glob(f"{VERIF}/seeded/*/meta.json")):
         m = json.load(open(meta))
+        if m.get("retired"):
+            continue
         d = os.path.dirname(meta)
         out.append({"name": "seeded-" + os.path.basename(d), "patch": f"{d}/patch.diff", "reverse": False,
                     "expect": m.get("expect", [m.get("property")]), "kind": "seeded",
